@@ -14,30 +14,45 @@ for p in sorted(glob.glob(f"{BASE}/seeded/*/patch.diff")):
 for p in sorted(glob.glob(f"{BASE}/sensitivity/*.diff")):
     name = os.path.basename(p)[:-5]
     targets.append((name, name.split("-")[0], p))
-only = sys.argv[1:] 
-for name, prop, patch in targets:
-    if only and not any(name.startswith(o) for o in only):
-        continue
+only = sys.argv[1:]
+from concurrent.futures import ThreadPoolExecutor
+import threading
+lock = threading.Lock()
+JOBS = int(os.environ.get("SWEEP_JOBS", "1"))
+
+
+def one(t):
+    name, prop, patch = t
     d = tempfile.mkdtemp(prefix="lw-mut-", dir="/tmp"); os.rmdir(d)
-    subprocess.run(["git", "-C", "/repo", "worktree", "add", "-q", "--detach", d, "HEAD"], check=True)
+    with lock:
+        subprocess.run(["git", "-C", "/repo", "worktree", "add", "-q", "--detach", d, "HEAD"], check=True)
     t0 = time.time()
     try:
         if subprocess.run(["git", "-C", d, "apply", patch]).returncode != 0:
-            out[f"{name}:{prop}"] = {"status": "patch does not apply"}
-            continue
-        e = dict(os.environ); e["LABSIM_REPO"] = d
-        args = [f"{BASE}/check", prop, "quick", "--no-selfcheck"]
-        if os.environ.get("SWEEP_WORKERS"):
-            args += ["--workers", os.environ["SWEEP_WORKERS"]]
-        r = subprocess.run(args, capture_output=True, text=True, env=e, cwd=BASE)
-        m = re.search(r"runs=(\d+).*violating_runs=(\d+)", r.stdout)
-        out[f"{name}:{prop}"] = {"exit": r.returncode, "runs": int(m.group(1)) if m else None,
-                                 "violating_runs": int(m.group(2)) if m else None,
-                                 "detected": r.returncode == 1 and "VIOLATION" in r.stdout,
-                                 "wall_s": round(time.time() - t0, 1)}
-        print(name, prop, out[f"{name}:{prop}"], flush=True)
+            res = {"status": "patch does not apply"}
+        else:
+            e = dict(os.environ); e["LABSIM_REPO"] = d
+            args = [f"{BASE}/check", prop, "quick", "--no-selfcheck"]
+            if os.environ.get("SWEEP_WORKERS"):
+                args += ["--workers", os.environ["SWEEP_WORKERS"]]
+            r = subprocess.run(args, capture_output=True, text=True, env=e, cwd=BASE)
+            m = re.search(r"runs=(\d+).*violating_runs=(\d+)", r.stdout)
+            res = {"exit": r.returncode, "runs": int(m.group(1)) if m else None,
+                   "violating_runs": int(m.group(2)) if m else None,
+                   "detected": r.returncode == 1 and "VIOLATION" in r.stdout,
+                   "wall_s": round(time.time() - t0, 1)}
     finally:
-        subprocess.run(["git", "-C", "/repo", "worktree", "remove", "--force", d])
-    json.dump(out, open(f"{BASE}/sensitivity_report.json", "w"), indent=1)
+        with lock:
+            subprocess.run(["git", "-C", "/repo", "worktree", "remove", "--force", d])
+    with lock:
+        out[f"{name}:{prop}"] = res
+        print(name, prop, res, flush=True)
+        json.dump(out, open(f"{BASE}/sensitivity_report.json", "w"), indent=1, sort_keys=True)
+
+
+todo = [t for t in targets if not only or any(t[0].startswith(o) for o in only)]
+with ThreadPoolExecutor(JOBS) as ex:
+    list(ex.map(one, todo))
 miss = [k for k, v in out.items() if not v.get("detected")]
-print("missed:", miss)
+thin = [k for k, v in out.items() if v.get("detected") and (v.get("violating_runs") or 0) < 5]
+print("targets:", len(out), "missed:", miss, "thin (<5 runs):", thin)
